@@ -16,13 +16,10 @@ namespace nmtools::index
     constexpr auto count_negative_reshape(const dst_shape_t& dst_shape)
     {
         auto minus_1_count = 0;
-        auto dst_numel = (size_t)0;
+        auto dst_numel = (size_t)1;
         using index_t = meta::get_index_element_type_t<dst_shape_t>;
         for (size_t i=0; i<(size_t)len(dst_shape); i++) {
             const auto d_i = at(dst_shape,i);
-            if (i==0) {
-                dst_numel = 1;
-            }
             if ((index_t)d_i == index_t(-1)) {
                 minus_1_count++;
             } else {
